@@ -7,7 +7,7 @@
           (`Spec`, on meanings): calls incl. the error class, representation independence, the
           `?:` fallback, `>>`/`>>>`, `++`, `\`.
 -/
-import Arrai.C05.Build
+import Arrai.C05.Count
 
 namespace Arrai.C05.Theorems
 open Arrai Arrai.C05 Arrai.C05.KSeq
@@ -81,7 +81,8 @@ the (key, name) pairs of the result are those of the operand -/
 theorem mapVals_keeps_keys (f : F) (xs : List V) (R : V) (h : Spec.mapVals f (.set xs) = .ok R) (k : V) (n : String) :
     (∃ y ∈ Spec.members R, ∃ w, asPair y = some (k, n, w)) ↔ (∃ x ∈ xs, ∃ v, asPair x = some (k, n, v)) := by
   simp only [Spec.mapVals] at h
-  cases hm : Spec.mapMembers f xs with
+  generalize Spec.modeOf (V.set xs) = m at h
+  cases hm : Spec.mapMembers m f xs with
   | error e => rw [hm] at h; simp at h
   | ok ys =>
     rw [hm] at h
@@ -110,8 +111,8 @@ theorem mapVals_keeps_keys (f : F) (xs : List V) (R : V) (h : Spec.mapVals f (.s
             exact ⟨v, rfl⟩
           · simp at hy
     · rintro ⟨x, hx, v, hp⟩
-      obtain ⟨y, hy⟩ : ∃ y, Spec.mapMember f x = .ok y := by
-        cases hh : Spec.mapMember f x with
+      obtain ⟨y, hy⟩ : ∃ y, Spec.mapMember m f x = .ok y := by
+        cases hh : Spec.mapMember m f x with
         | ok y => exact ⟨y, rfl⟩
         | error e =>
           obtain ⟨e', he⟩ := mapMembers_error.2 ⟨x, hx, e, hh⟩
@@ -138,6 +139,17 @@ theorem call_refines (c : Coll) (k : Arg) (hwf : c.wf = true) (hk : Spec.keyed c
     Impl.setCall c k = Spec.call c.den k :=
   setCall_eq c k hwf hk
 
+/-- … and on ANY well-formed set, keyed or not: one member that is neither a pair nor `()` makes the
+call an error of class `other` (never "no value", so `?:` does not fall back); otherwise — `true`,
+`'ab' | true` — the pairs answer as above -/
+theorem call_total (c : Coll) (k : Arg) (hwf : c.wf = true) : Impl.setCall c k = Spec.callAny c.den k :=
+  setCall_total c k hwf
+
+/-- two representations of the same set (keyed or not) answer every call identically -/
+theorem call_rep_indep_total (c c' : Coll) (k : Arg) (hwf : c.wf = true) (hwf' : c'.wf = true)
+    (hden : c.den = c'.den) : Impl.setCall c k = Impl.setCall c' k := by
+  rw [setCall_total c k hwf, setCall_total c' k hwf', hden]
+
 /-- two representations of the same collection answer every call identically -/
 theorem call_rep_indep (c c' : Coll) (k : Arg) (hwf : c.wf = true) (hwf' : c'.wf = true)
     (hk : Spec.keyed c.den = true) (hden : c.den = c'.den) : Impl.setCall c k = Impl.setCall c' k := by
@@ -160,50 +172,134 @@ theorem safecall_fallback (c : Coll) (k : Arg) (d : V) (hwf : c.wf = true) (hk :
   | ok v => simp
   | error e => cases e <;> simp
 
+/-- with an argument EXPRESSION: as long as it does not itself fail with a missing attribute, the
+fallback is taken exactly in the no-value case -/
+theorem safecall_fallback_partial (c : Coll) (x : Spec.ArgX) (d : V) (hwf : c.wf = true)
+    (hk : Spec.keyed c.den = true) (hx : x ≠ .missingAttr) :
+    Impl.safeCallX c x d = Spec.safeCallX c.den x d := by
+  cases x with
+  | val a => exact safecall_refines c a d hwf hk
+  | missingAttr => exact absurd rfl hx
+  | otherErr => rfl
+
+/-- the full-strength statement … -/
+def safecall_fallback_full : Prop :=
+  ∀ (c : Coll) (x : Spec.ArgX) (d : V), c.wf = true → Spec.keyed c.den = true →
+    ((Impl.safeCallX c x d).1 = true ↔ ∃ a, x = .val a ∧ Spec.call c.den a = .error .noReturn)
+
 /-- `>>` / `>>>` on a string, byte array, array or dictionary: the result means the operand's
 meaning with every value transformed and every key kept; an error exactly when the specification
 has one (a transformer error, or a non-char / non-byte result for a string / byte array) -/
-theorem seqarrow_refines (f : F) (c : Coll) (h : c.isSugar = true) :
+theorem seqarrow_refines (f : F) (c : Coll) (h : c.isSugar = true) (hwf : c.wf = true) :
     (Impl.seqArrow f c).value?.map Coll.den = (Spec.mapVals f c.den).value? := by
+  have hmem : ∀ c' : Coll, c'.members = [] ∨ c'.members ≠ [] := fun c' => by
+    cases c'.members <;> simp
   cases c with
   | one b =>
     cases b with
-    | str off rs => exact arrowOk_refines (arrowOk_str f off rs)
-    | bytes off bs => exact arrowOk_refines (arrowOk_bytes f off bs)
-    | arr off vs => exact arrowOk_refines (arrowOk_arr f off vs)
-    | dict m => exact arrowOk_refines (arrowOk_dict f m)
+    | str off rs =>
+      exact arrowOk_refines (arrowOk_str f off rs) ((hmem _).imp id (modeOf_str off rs))
+    | bytes off bs =>
+      exact arrowOk_refines (arrowOk_bytes f off bs) ((hmem _).imp id (modeOf_bytes off bs hwf))
+    | arr off vs =>
+      exact arrowOk_refines (arrowOk_arr f off vs) ((hmem _).imp id (modeOf_arr off vs))
+    | dict m =>
+      exact arrowOk_refines (arrowOk_dict f m) ((hmem _).imp id (modeOf_dict m))
     | _ => simp [Coll.isSugar] at h
   | _ => simp [Coll.isSugar] at h
 
-/-- the same for every other set of pairs (relations, unions, …), which go through the set builder:
-proved when the specified result is representable (outside KF-superimposed / KF-bytes-holes) -/
-theorem seqarrow_set_refines_partial (f : F) (c : Coll) (h : c.isSugar = false) (R : V)
-    (hs : Spec.mapVals f c.den = .ok R) (hrep : Spec.representable R = true) :
-    ∃ r, Impl.seqArrow f c = .ok r ∧ r.den = R := by
+/-- every other set — relations, unions, `true`, sets that are not keyed at all — goes through the
+generic loop and the set builder. Whether it fails, and with which member's error, is exactly as
+specified (no hypothesis on the result): -/
+theorem seqarrow_set_error_iff (f : F) (c : Coll) (h : c.isSugar = false)
+    (hm : Spec.modeOf c.den = .generic) :
+    (Impl.seqArrow f c).value? = none ↔ (Spec.mapVals f c.den).value? = none := by
+  rw [mapVals_den, hm, seqArrow_set f c h, setLoop_eq]
+  cases Spec.mapMembers .generic f c.members <;> simp [Res.value?, okSet]
+
+/-- … an error returned by the loop is the error of transforming one of the members, as specified … -/
+theorem seqarrow_set_error_class (f : F) (c : Coll) (h : c.isSugar = false) (e : Err)
+    (hi : Impl.seqArrow f c = .error e) : ∃ x ∈ c.members, Spec.mapMember .generic f x = .error e := by
+  rw [seqArrow_set f c h, setLoop_eq] at hi
+  generalize c.members = l at hi
+  induction l with
+  | nil => simp [Spec.mapMembers] at hi
+  | cons x r ih =>
+    unfold Spec.mapMembers at hi
+    cases h1 : Spec.mapMember .generic f x with
+    | error e' =>
+      rw [h1] at hi
+      simp only [Except.error.injEq] at hi
+      exact ⟨x, by simp, by rw [h1, hi]⟩
+    | ok y =>
+      rw [h1] at hi
+      cases h2 : Spec.mapMembers .generic f r with
+      | error e' =>
+        rw [h2] at hi
+        simp only [Except.error.injEq] at hi
+        subst hi
+        obtain ⟨x', hx', he⟩ := ih (by rw [h2])
+        exact ⟨x', List.mem_cons_of_mem _ hx', he⟩
+      | ok ys => rw [h2] at hi; simp at hi
+
+/-- … and the value is the specified one whenever that is representable (outside KF-superimposed /
+KF-bytes-holes): the outcomes of `>>` on the generic loop and of the specification coincide -/
+theorem seqarrow_set_refines_partial (f : F) (c : Coll) (h : c.isSugar = false)
+    (hm : Spec.modeOf c.den = .generic) (hrep : Spec.okRepresentable (Spec.mapVals f c.den) = true) :
+    (Impl.seqArrow f c).value?.map Coll.den = (Spec.mapVals f c.den).value? := by
   have hv := mapVals_den f c
-  rw [hs] at hv
-  cases hm : Spec.mapMembers f c.members with
-  | error e => rw [hm] at hv; simp [Res.value?, okSet] at hv
+  rw [hm] at hv
+  rw [seqArrow_set f c h, setLoop_eq]
+  cases hs : Spec.mapMembers .generic f c.members with
+  | error e => rw [hs] at hv; rw [hv]; rfl
   | ok ys =>
-    rw [hm] at hv
-    simp only [Res.value?, okSet, Option.some.injEq] at hv
-    subst hv
-    refine ⟨Impl.build ys, ?_, ?_⟩
-    · rw [seqArrow_set f c h, setLoop_of_mapMembers hm]
-    · apply den_build
-      simp only [Spec.representable, V.mkSet] at hrep
+    rw [hs] at hv
+    cases hR : Spec.mapVals f c.den with
+    | error e => rw [hR] at hv; simp [Res.value?, okSet] at hv
+    | ok R =>
+      rw [hR] at hv hrep
+      simp only [Res.value?, okSet, Option.some.injEq] at hv
+      subst hv
+      simp only [Res.value?, Option.map_some, Option.some.injEq]
+      apply den_build
+      simp only [Spec.okRepresentable, Spec.representable, V.mkSet] at hrep
       exact representableList_congr (fun x => FinSet.mem_mk ys x) hrep
 
-/-- … and whenever that loop fails, the specification has an error too -/
-theorem seqarrow_set_error (f : F) (c : Coll) (h : c.isSugar = false) (e : Err)
-    (hi : Impl.seqArrow f c = .error e) : (Spec.mapVals f c.den).value? = none := by
-  rw [mapVals_den]
-  rw [seqArrow_set f c h] at hi
-  cases hl : Impl.setLoop f c.members with
-  | ok out => rw [hl] at hi; simp at hi
-  | error e' =>
-    obtain ⟨e'', he⟩ := setLoop_error hl
-    rw [he]; rfl
+/-- in particular `>>` on a set that is not a set of pairs is an error -/
+theorem seqarrow_nonkeyed_error (f : F) (c : Coll) (hk : Spec.keyed c.den = false) :
+    (Impl.seqArrow f c).value? = none ∧ (Spec.mapVals f c.den).value? = none := by
+  -- a member that is not a pair
+  have hx : ∃ x ∈ c.members, asPair x = none := by
+    simp only [Coll.den, V.mkSet, Spec.keyed, List.all_eq_false, FinSet.mem_mk, isPair,
+      Bool.not_eq_true, Option.isSome_eq_false_iff, Option.isNone_iff_eq_none] at hk
+    exact hk
+  obtain ⟨x, hx, hp⟩ := hx
+  have herr : ∀ m, ∃ e, Spec.mapMembers m f c.members = .error e := fun m =>
+    mapMembers_error.2 ⟨x, hx, .other, by simp [Spec.mapMember, hp]⟩
+  have hspec : (Spec.mapVals f c.den).value? = none := by
+    rw [mapVals_den]; obtain ⟨e, he⟩ := herr (Spec.modeOf c.den); rw [he]; rfl
+  refine ⟨?_, hspec⟩
+  have hsug : c.isSugar = false := by
+    cases c with
+    | one b =>
+      cases b with
+      | str off rs =>
+        obtain ⟨i, v, _, rfl⟩ := (mem_seqMembers _ _ _ _).1 hx
+        rw [asPair_pair _ _ _ (by decide)] at hp; simp at hp
+      | bytes off bs =>
+        obtain ⟨i, v, _, rfl⟩ := (mem_seqMembers _ _ _ _).1 hx
+        rw [asPair_pair _ _ _ (by decide)] at hp; simp at hp
+      | arr off vs =>
+        obtain ⟨i, v, _, rfl⟩ := (mem_seqMembers _ _ _ _).1 hx
+        rw [asPair_pair _ _ _ (by decide)] at hp; simp at hp
+      | dict m =>
+        obtain ⟨k, vs, _, v, _, rfl⟩ := (mem_dictMembers m x).1 hx
+        rw [asPair_pair _ _ _ (by decide)] at hp; simp at hp
+      | _ => rfl
+    | _ => rfl
+  rw [seqArrow_set f c hsug, setLoop_eq]
+  obtain ⟨e, he⟩ := herr .generic
+  rw [he]; rfl
 
 /-- the full-strength statement for `>>` on arbitrary representations … -/
 def seqarrow_full : Prop :=
@@ -212,10 +308,11 @@ def seqarrow_full : Prop :=
 /-- `a ++ b` means `a ∪ shift |a| b` (an error exactly when a member of `b` has no numeric `@`),
 proved when that set is representable: a left operand whose element count is smaller than its extent
 (offset or sparse) makes indices collide — KF-superimposed -/
-theorem concat_refines_partial (a b : Coll)
+theorem concat_refines_partial (a b : Coll) (hc : a.wfCount = true)
     (h : Spec.okRepresentable (Spec.concat a.den b.den) = true) :
     (Impl.concat a b).value?.map Coll.den = (Spec.concat a.den b.den).value? := by
-  rw [concat_spec] at h ⊢
+  have hcc := count_eq_card a hc
+  rw [concat_spec a b hcc] at h ⊢
   rw [concat_impl]
   cases hs : Spec.shiftMembers (Int.ofNat (Impl.count a)) b.members with
   | none => rfl
@@ -225,15 +322,20 @@ theorem concat_refines_partial (a b : Coll)
     simp only [Res.value?, Option.map_some, Option.some.injEq]
     exact den_build _ (representableList_congr (fun x => FinSet.mem_mk _ x) h)
 
+/-- the shift of `++` is `a.Count()`, and `Count()` of every representation (String with holes,
+multi-valued Dict, Relation, UnionSet, …) is the number of members of its meaning -/
+theorem count_is_card (a : Coll) (h : a.wfCount = true) : Impl.count a = Spec.card a.den :=
+  count_eq_card a h
+
 /-- `++` fails exactly when the specification does (whatever the operands) -/
 theorem concat_error_iff (a b : Coll) :
     (Impl.concat a b).value? = none ↔ (Spec.concat a.den b.den).value? = none := by
-  rw [concat_spec, concat_impl]
+  rw [concat_spec_none a b (Int.ofNat (Impl.count a)), concat_impl]
   cases Spec.shiftMembers (Int.ofNat (Impl.count a)) b.members <;> simp [Res.value?]
 
 /-- the full-strength statement for `++` … -/
 def concat_full : Prop :=
-  ∀ (a b : Coll), a.wf = true → b.wf = true →
+  ∀ (a b : Coll), a.wf = true → b.wf = true → a.wfCount = true →
     (Impl.concat a b).value?.map Coll.den = (Spec.concat a.den b.den).value?
 
 /-- `n \ s` on a string, byte array, array or the empty set: every index moved by `n`, nothing else -/
@@ -279,8 +381,12 @@ theorem results_wf (f : F) (a b : Coll) (n : Arg) (r : Coll) (ha : a.wf = true)
     (h : Impl.seqArrow f a = .ok r ∨ Impl.concat a b = .ok r ∨ Impl.offset n a = .ok r) : r.wf = true := by
   have hs : ∀ rs off, (Impl.newOffsetString rs off).wf = true := fun rs off => by
     unfold Impl.newOffsetString; split <;> rfl
-  have hb : ∀ bs off, (Impl.newOffsetBytes bs off).wf = true := fun bs off => by
-    unfold Impl.newOffsetBytes; split <;> rfl
+  have hb : ∀ (bs : List Nat) off, (∀ b ∈ bs, b < 256) → (Impl.newOffsetBytes bs off).wf = true :=
+    fun bs off hlt => by
+      unfold Impl.newOffsetBytes
+      split
+      · rfl
+      · simpa [Coll.wf, Bucket.wf] using hlt
   have hv : ∀ off vs, (Impl.newOffsetArray off vs).wf = true := fun off vs => by
     unfold Impl.newOffsetArray; simp only; split <;> rfl
   rcases h with h | h | h
@@ -295,7 +401,7 @@ theorem results_wf (f : F) (a b : Coll) (n : Arg) (r : Coll) (ha : a.wf = true)
         | bytes off bs =>
           simp only [Impl.seqArrow] at h
           cases hl : Impl.bytesLoop f off bs <;> rw [hl] at h <;> simp at h
-          subst h; exact hb _ _
+          subst h; exact hb _ _ (bytesLoop_lt hl)
         | arr off vs =>
           simp only [Impl.seqArrow] at h
           cases hl : kmapM (fun i v => f (.num i) v) off vs <;> rw [hl] at h <;> simp at h
@@ -325,8 +431,13 @@ theorem results_wf (f : F) (a b : Coll) (n : Arg) (r : Coll) (ha : a.wf = true)
         | true_ => simp [Impl.offset] at h
         | union bs => simp [Impl.offset] at h
         | one bk =>
-          cases bk <;> simp only [Impl.offset, Except.ok.injEq] at h <;>
-            first | (subst h; first | exact hs _ _ | exact hb _ _ | exact hv _ _) | simp at h
+          cases bk with
+          | str o rs => simp only [Impl.offset, Except.ok.injEq] at h; subst h; exact hs _ _
+          | bytes o bs =>
+            simp only [Impl.offset, Except.ok.injEq] at h; subst h
+            exact hb _ _ (by simpa [Coll.wf, Bucket.wf] using ha)
+          | arr o vs => simp only [Impl.offset, Except.ok.injEq] at h; subst h; exact hv _ _
+          | _ => simp [Impl.offset] at h
       | tup _ => simp [Impl.offset] at h
       | set _ => simp [Impl.offset] at h
 
@@ -336,12 +447,19 @@ theorem results_wf (f : F) (a b : Coll) (n : Arg) (r : Coll) (ha : a.wf = true)
 the specification's set has four members, the string that is built two -/
 theorem concat_full_false : ¬ concat_full := by
   intro h
-  exact absurd (h (.one (.str 2 [97, 98])) (.one (.str 0 [99, 100])) rfl rfl) (by decide)
+  exact absurd (h (.one (.str 2 [97, 98])) (.one (.str 0 [99, 100])) rfl rfl rfl) (by decide)
 
 /-- a union holding two chars at index 0, mapped with the identity: the builder keeps one of them -/
 theorem seqarrow_full_false : ¬ seqarrow_full := by
   intro h
   exact absurd (h (fun _ v => .ok v) (.union [.str 0 [97], .str 0 [98]]) rfl) (by decide)
+
+/-- `'a'((a: 1).b)?:9`: the ARGUMENT expression fails with a missing attribute and the fallback is
+taken although no call found "no value" (KF-safecall-arg-missing-attr) -/
+theorem safecall_fallback_full_false : ¬ safecall_fallback_full := by
+  intro h
+  obtain ⟨a, ha, _⟩ := (h (.one (.str 0 [97])) .missingAttr (.num 9) rfl (by decide)).1 rfl
+  cases ha
 
 /-- non-vacuity: a well-formed keyed collection in a mixed representation (string with an offset and a
 hole, dictionary with a two-valued key); a relation whose `>>` result is representable; operands of `++`
@@ -356,6 +474,12 @@ example :
     (Impl.setCall ex_c (.val (.num (-2)))).value? = some (.num 97) ∧
     (Impl.setCall ex_c (.val (.num (-1)))).value? = none ∧
     (Impl.setCall ex_c (.val (.num 1))).value? = none := by decide
+
+example :
+    Coll.wfCount ex_c = true ∧ Impl.count ex_c = 4 ∧ Coll.wfCount ex_a = true ∧
+    Spec.modeOf (Coll.den ex_r) = .generic ∧ Spec.modeOf (Coll.den ex_c) = .generic ∧
+    Spec.keyed (Coll.den (Coll.union [Bucket.str 0 [97], Bucket.tt])) = false ∧
+    (Spec.ArgX.otherErr ≠ .missingAttr) := by decide
 
 example :
     Coll.isSugar ex_r = false ∧ Coll.wf ex_r = true ∧
